@@ -236,6 +236,19 @@ func (pk *PkgCtx) contractFor(f *ssa.Function) (string, *FuncContract) {
 		if con, ok := pk.contracts.Externs[o.String()]; ok {
 			return o.String(), con
 		}
+		// the read-only helpers of package slices (no callbacks, operands not written)
+		if o.Pkg != nil && o.Pkg.Pkg.Path() == "slices" && pureSlicesFuncs[o.Name()] {
+			if pk.stdPure == nil {
+				pk.stdPure = map[string]*FuncContract{}
+			}
+			okey := o.String()
+			if con, ok := pk.stdPure[okey]; ok {
+				return okey, con
+			}
+			con := &FuncContract{Key: okey, Prop: "", Extern: true, Line: "standard library (treated as pure)"}
+			pk.stdPure[okey] = con
+			return okey, con
+		}
 	}
 	return key, nil
 }
@@ -1618,5 +1631,7 @@ func selectorChain(e ast.Expr) (string, []string) {
 	}
 	return "", nil
 }
+
+var pureSlicesFuncs = map[string]bool{"Clone": true, "Contains": true, "Index": true, "Equal": true}
 
 var pureStdPkgs = map[string]bool{"log": true, "fmt": true, "errors": true, "strings": true, "strconv": true, "unicode": true, "unicode/utf8": true, "math": true, "math/bits": true, "path": true, "path/filepath": true}
